@@ -223,7 +223,9 @@ def run(prog: Program, rep: Report, tier: str = "quick") -> None:
     rep.not_decided = ["numerical equality of the two presentations (floating-point re-association)", "dependence of partial pairing on presentation order among tied teams (the statement's exception)"]
     jobs = [(i, sel) for i in range(len(roles)) for sel in ("ranks", "scores", None)]
     seen = set()
-    for lst in parallel_map(_job, jobs):
+    from .rankiso import iso_job
+
+    for lst in parallel_map(_job, jobs) + parallel_map(iso_job, [(i, "R4.5") for i in range(len(roles))]):
         for d in lst:
             key = (d["rule"], d["verdict"], d["module"], d["function"], d["construct"], d.get("model", ""))
             if key in seen:
@@ -235,3 +237,4 @@ def run(prog: Program, rep: Report, tier: str = "quick") -> None:
     rep.floor("R4.2", 2)
     rep.floor("R4.3", 2 * n)
     rep.floor("R4.4", n)
+    rep.floor("R4.5", 6 * n)
